@@ -419,21 +419,26 @@ def Lst.push (l : Lst) (v : Val) : Lst × Res :=
   | .raised e => (l, .raised e)
   | .ub => (l, .ub)
 
-/-- `List_Push_At`: allocate, `assign`, `c_int(key)`, index 0 links at the head, otherwise `List_At` (which rejects
-    `nitems` itself) and link before that node -/
+/-- `List_Push_At` (fix 4077d96): `c_int(key)`; a non-zero index is validated by `List_At` (which rejects `nitems` itself)
+    **before** anything is allocated; then the node is allocated and assigned; index 0 links at the head, otherwise
+    before the addressed node -/
 def Lst.pushAt (l : Lst) (v k : Val) : Lst × Res :=
-  match assignTo l.ty v with
-  | .ok v' =>
-    match cInt k with
-    | .ok kb =>
-      if kb = 0 then ({ l with items := v' :: l.items }, .ok .unit)
-      else
-        match resolveB l.items.length kb with
-        | .ok i => ({ l with items := insertAt l.items i v' }, .ok .unit)
-        | .raised e => (l, .raised e)
-        | .ub => (l, .ub)
-    | .raised e => (l, .raised e)
-    | .ub => (l, .ub)
+  match cInt k with
+  | .ok kb =>
+    if kb = 0 then
+      match assignTo l.ty v with
+      | .ok v' => ({ l with items := v' :: l.items }, .ok .unit)
+      | .raised e => (l, .raised e)
+      | .ub => (l, .ub)
+    else
+      match resolveB l.items.length kb with
+      | .ok i =>
+        (match assignTo l.ty v with
+         | .ok v' => ({ l with items := insertAt l.items i v' }, .ok .unit)
+         | .raised e => (l, .raised e)
+         | .ub => (l, .ub))
+      | .raised e => (l, .raised e)
+      | .ub => (l, .ub)
   | .raised e => (l, .raised e)
   | .ub => (l, .ub)
 
@@ -965,11 +970,11 @@ def Rng.step' (r : Rng) : Op → Rng × Res
   | .print _ _ _ => (r, .ub)
   | _ => (r, .raised .ClassError)             -- no Push / Resize / Concat
 
-/-- `Slice_Arg` for start/stop: negative counts from the end; `a > n` compares as unsigned, so a value that is
-    still negative becomes `n`; -/
+/-- `Slice_Arg` for start/stop (fix a67379b): negative counts from the end, then clamp into `[0, n]` -/
 def sliceArg (n : Nat) (a : Int) : Int :=
   let a1 := if a < 0 then (n : Int) + a else a
-  if a1 < 0 ∨ a1 > n then n else a1
+  let a2 := if a1 > n then (n : Int) else a1
+  if a2 < 0 then 0 else a2
 
 structure Slc where
   base : Nat          -- object id of the iterable
